@@ -109,6 +109,10 @@ def main(argv=None):
     os.makedirs(rdir, exist_ok=True)
     for sig, v in listed:
         print("KNOWN-FINDING: property=%s %s [sig=%s, %d case(s) this run]" % (pid, known[sig], sig, v["count"]))
+        # keep a replayable counterexample of every listed finding next to the others
+        path = os.path.join(rdir, "%s-%s.json" % (pid, engine.digest(sig)))
+        with open(path, "w") as f:
+            json.dump({"property": pid, "signature": sig, "what": v["what"], "replay": v["replay"], "known_finding": True}, f, indent=1)
     rc = 0
     for sig, v in new:
         path = os.path.join(rdir, "%s-%s.json" % (pid, engine.digest(sig)))
